@@ -57,6 +57,8 @@ func main() {
 		modeC01(*thorough)
 	case "c17":
 		modeC17(*rules)
+	case "c18":
+		modeC18()
 	case "c13":
 		modeC13(*rules, *thorough)
 	case "c08":
